@@ -240,10 +240,10 @@ CHECKS = {
         text="SimpleHeatPumpCycle.solve, the metrics, COP_h/COP_r and build_stream_collection (all three request orders as a solver "
              "choice) are executed symbolically with evaporating/condensing temperature, superheat and subcooling as z3 reals. CoolProp's "
              "compiled state object is replaced by uninterpreted state functions constrained by a listed contract of identities true for "
-             "every pure fluid (plus one stated domain assumption); per path: Q_cond = Q_evap + W, W > 0, COP_h = COP_r + 1, entropy "
+             "every pure fluid (plus one stated domain assumption, dropped in the heavy-fluid cases); per path: Q_cond = Q_evap + W, W > 0, COP_h = COP_r + 1, entropy "
              "non-decreasing over compression and throttling, H3 = H2, saturation pressures, stream sets carry exactly the duties, are "
-             "monotone and order-independent. Every third path model is re-run on the real CoolProp library (water; ammonia in the "
-             "thorough tier) and must satisfy the same obligations.",
+             "monotone and order-independent. Every third path model is re-run on the real CoolProp library (water, n-pentane for wet "
+             "compressor discharge, D4 for condenser-liquid-above-evaporator-vapour cycles; ammonia in the thorough tier) and must satisfy the same obligations.",
         design_ref="5/C18",
         note="'All refrigerants' is covered as 'any fluid satisfying the contract' (listed verbatim in the evidence); the numerical quality of "
              "CoolProp, trans-critical cycles, the IHX (ihx_gas_dt > 0) and heat_pump_targeting.py (scipy optimisers) are outside. Compressor "
